@@ -68,6 +68,8 @@ func runC05(w *World) *Result {
 	SiblingCells(w, bash, batch, r, "R-C05-optable")
 	AllocRule(w, batch, r, "R-C05-alloc")
 	PopRule(w, "batch", r, "R-C05-alloc")
+	r.Rule("R-C05-lenmono", "Batch: element assignment never shortens a slice (the stored length index+1 is written only where index >= old length)", 1)
+	BatchLenMonotoneRule(w, batch, r, "R-C05-lenmono")
 	r.Rule("R-C05-blockexit", "Batch: a line closing a parenthesised block that held user statements is never reached by falling through: the line before it is an unconditional goto to a label kept on the construct's stack", 3)
 	c05BlockExit(w, batch, r)
 	// numcmp over all lines incl. helper bodies
